@@ -718,3 +718,84 @@ func inputKeyNarrowingChecked(w *World, r *Report, rule string) {
 		undecidedf("%s: the invoke half of inputKeyedComposableRunnable calls no captured function", rule)
 	}
 }
+
+// staticValuesTypeChecked: Workflow.compile runs every static value of a node through a compile-time check (a callee
+// that resolves the target path in the node's input type — checkAndExtractFieldType — and tests assignability —
+// checkAssignable) before it installs the merge handler, and an error of that check leaves Compile.
+func staticValuesTypeChecked(w *World, r *Report, rule string) {
+	wfc := w.Fn("compose", "Workflow.compile")
+	extract := w.Fn("compose", "checkAndExtractFieldType")
+	assignable := w.Fn("compose", "checkAssignable")
+	graphT := w.Named("compose", "graph")
+	var regs []ssa.Instruction
+	for _, fw := range fieldWrites(wfc) {
+		if fw.owner == graphT && fw.field.Name() == "handlerPreNode" {
+			if _, ok := fw.in.(*ssa.MapUpdate); ok {
+				regs = append(regs, fw.in)
+			}
+		}
+	}
+	if len(regs) == 0 {
+		undecidedf("%s: Workflow.compile installs no pre-node handler", rule)
+	}
+	var checks []*ssa.Call
+	instrs(wfc, func(in ssa.Instruction) {
+		c, ok := in.(*ssa.Call)
+		if !ok {
+			return
+		}
+		sc := staticCallee(c)
+		if sc == nil || !w.inRepo(sc) {
+			return
+		}
+		if len(callsTo(sc, extract)) > 0 && len(callsTo(sc, assignable)) > 0 {
+			checks = append(checks, c)
+		}
+	})
+	good, det := false, "no callee of Workflow.compile resolves a static value's path in the node's input type and tests assignability"
+	for _, c := range checks {
+		// the check sits in a loop whose header dominates every handler registration, and its error leaves compile
+		var loop *loopInfo
+		for _, li := range naturalLoops(wfc) {
+			li := li
+			if li.body[c.Block()] && (loop == nil || len(li.body) < len(loop.body)) {
+				loop = &li
+			}
+		}
+		if loop == nil {
+			det = "the check is not applied per static value (not in a loop)"
+			continue
+		}
+		dom := true
+		for _, reg := range regs {
+			if !(loop.header == reg.Block() || loop.header.Dominates(reg.Block())) || loop.body[reg.Block()] {
+				dom = false
+			}
+		}
+		blocks := false
+		for _, ref := range *c.Referrers() {
+			if bo, ok := ref.(*ssa.BinOp); ok {
+				for _, r2 := range *bo.Referrers() {
+					if iff, ok := r2.(*ssa.If); ok {
+						errArm := iff.Block().Succs[0]
+						if bo.Op == token.EQL {
+							errArm = iff.Block().Succs[1]
+						}
+						if reach, _ := pathFromBlock(pathQuery{fn: wfc, goal: func(x ssa.Instruction) bool {
+							ret, ok := x.(*ssa.Return)
+							return ok && len(ret.Results) == 2 && !isNilConst(ret.Results[1])
+						}, avoidEdge: func(_, to *ssa.BasicBlock) bool { return to == loop.header }}, errArm); reach {
+							blocks = true
+						}
+					}
+				}
+			}
+		}
+		if dom && blocks {
+			good = true
+		} else {
+			det = fmt.Sprintf("the check is there but does not gate the handler (runs before every registration: %v, its error leaves Compile: %v)", dom, blocks)
+		}
+	}
+	r.Check(good, rule, "Workflow.compile type-checks static values before installing them", wfc.Pos(), "a per-value check (path resolved in the node's input type, value assignable to what is found) precedes the merge handler; its error returns", det+": SetStaticValue with a path the input type does not have, a path into a non-struct, or a value the field cannot hold (a string for an int field) compiles, and then every run fails in convertTo — the same target as a field mapping is a compile-time error")
+}
